@@ -65,7 +65,10 @@ def cases_for(prop, tier, seed):
         return (gen.fam_single_ops(g, "C02-single") + gen.fam_creation(g, "C02-create") +
                 gen.fam_pairs(g, "C02-pair", 4 if T else 1) + gen.fam_chains(g, "C02-chain", 300 * k, depth=(2, 4)))
     if prop == "C03":
-        return gen.fam_combinators(g, "C03-comb", 60 * k) + gen.fam_hot(g, "C03-hot", 200 * k, depth=(1, 3))
+        combs = ("merge", "concat", "zip", "amb", "take_until", "skip_until", "sample", "switch_on_next", "combine_latest", "sequence_equal", "flat_map")
+        return (gen.fam_combinators(g, "C03-comb", 60 * k) + gen.fam_hot(g, "C03-hot", 200 * k, depth=(1, 3)) +
+                # callbacks that push into / complete one of the combined hot sources
+                [c for c in gen.fam_reentrant(g, "C03-re", 0) if any("(sub (%s " % op in c for op in combs)])
     if prop == "C04":
         return gen.fam_errors(g, "C04-err", 150 * k)
     if prop == "C05":
